@@ -208,6 +208,8 @@ class Unit:
         """two passes: constants the extracted code refers to, that the template does not list and that are top-level `const`s of a file
         something is extracted from, are extracted too (in front of the first item taken from that file)"""
         self.auto_consts = {}
+        self.auto_assoc = set()
+        self.seen_assoc_consts = set()
         out = self._assemble(canary)
         text = out.text()
         defined = set(re.findall(r'\b(?:const|static)\s+([A-Z][A-Z0-9_]+)\b', text))
@@ -216,6 +218,12 @@ class Unit:
             if o.get('kind') == 'src':
                 used |= set(re.findall(r'(?<![:\w])([A-Z][A-Z0-9_]{2,})\b(?!\s*[:!(]{1,2}[:\w(])', ln))
         files = sorted({o['file'] for o in out.origin if o.get('kind') == 'src' and o.get('file')})
+        # associated constants (`Self::NAME` / `Type::NAME`) of an impl block that is being extracted, not listed with //@assoc
+        used_assoc = set()
+        for ln, o in zip(out.lines, out.origin):
+            if o.get('kind') == 'src':
+                used_assoc |= set(re.findall(r'::([A-Z][A-Z0-9_]{2,})\b(?!\s*[:!(]{1,2}[:\w(])', ln))
+        self.auto_assoc = (used_assoc - defined) & self.seen_assoc_consts
         want = {}
         for nm in sorted(used - defined):
             for rel in files:
@@ -225,7 +233,7 @@ class Unit:
                     continue
                 want.setdefault(rel, []).append(nm)
                 break
-        if want:
+        if want or self.auto_assoc:
             self.auto_consts = want
             out = self._assemble(canary)
         return out
@@ -361,6 +369,15 @@ class Unit:
                 impl_ctx = {'file': rel, 'item': it, 'subs': subs, 'emitted': set(), 'trait_impl': trait_impl,
                             'type': header}
                 pending_skip = set()
+                for x in subs:
+                    if x.kind == 'const':
+                        self.seen_assoc_consts.add(x.name)
+                        if x.name in self.auto_assoc:
+                            t = x.text()
+                            if 'R4' in self.rules and not trait_impl:
+                                t = rx.r4_visibility_item(t, 'const')
+                            out.emit_src(t, rel, rx.line_of(x.src, x.sig_begin))
+                            out.count('R16', 1)
             elif d == 'trait':
                 segs = [x.strip() for x in arg.split(':::')]
                 rel, tname = segs[0], segs[1]
@@ -525,6 +542,19 @@ class Unit:
         rets = None
         for (kind, nn), sl in secs.items():
             if kind in ('sig', 'attr', 'site'):
+                continue
+            if kind == 'loop-returns':
+                # before every `return` lexically inside loop nn: an early way out of the loop has to justify itself
+                if loops is None:
+                    loops = rx.find_loops(body)
+                if rets is None:
+                    rets = rx.find_returns(body)
+                if nn is None or nn < 1 or nn > len(loops):
+                    raise Undecided('lost anchor: %s loop %s (function has %d loops)' % (fid, nn, len(loops)))
+                kw, kpos, lbo, lend = loops[nn - 1]
+                for rp in rets:
+                    if lbo < rp < lend:
+                        inserts.append((bo + rp, block_lines(sl)))
                 continue
             if kind in ('loop', 'before-loop', 'loop-start', 'loop-end'):
                 if loops is None:
